@@ -1645,5 +1645,7 @@ pub fn gen_scenario(property: &str, p: &Profile, run_seed: u64, reencode_tail: b
         schedule,
         scheduler,
         tail,
+        exec: None,
+        info: None,
     })
 }
